@@ -177,6 +177,8 @@ struct Setup {
     mem_limit: Option<usize>,
     disk_off: bool,
     prefer_hash_join: bool,
+    /// join dynamic filters pushed into the probe side (on by default in the engine)
+    dyn_filters: bool,
 }
 
 fn fmt_rows(b: &RecordBatch) -> Vec<String> {
@@ -190,7 +192,7 @@ fn run_sql(setup: &Setup, sql: &str) -> Seen {
     let (tx, rx) = std::sync::mpsc::channel();
     let tables: Vec<(String, Arc<StreamingTable>)> = setup.tables.iter().enumerate().map(|(i, (n, s))| (n.clone(), s.provider(i))).collect();
     let sql = sql.to_string();
-    let (parts, bs, bad, mem, disk_off, phj) = (setup.partitions, setup.batch_size, setup.udf_bad, setup.mem_limit, setup.disk_off, setup.prefer_hash_join);
+    let (parts, bs, bad, mem, disk_off, phj, dynf) = (setup.partitions, setup.batch_size, setup.udf_bad, setup.mem_limit, setup.disk_off, setup.prefer_hash_join, setup.dyn_filters);
     std::thread::spawn(move || {
         let r = hutil::catch(std::panic::AssertUnwindSafe(|| {
             let rt = tokio::runtime::Builder::new_current_thread().enable_all().build().unwrap();
@@ -205,7 +207,8 @@ fn run_sql(setup: &Setup, sql: &str) -> Seen {
                 .with_target_partitions(parts)
                 .with_batch_size(bs)
                 .with_sort_spill_reservation_bytes(0)
-                .set_bool("datafusion.optimizer.prefer_hash_join", phj);
+                .set_bool("datafusion.optimizer.prefer_hash_join", phj)
+                .set_bool("datafusion.optimizer.enable_dynamic_filter_pushdown", dynf);
             let ctx = SessionContext::new_with_config_rt(cfg, rb.build_arc().unwrap());
             for (n, t) in tables {
                 ctx.register_table(n.as_str(), t).unwrap();
@@ -293,7 +296,7 @@ fn contained(prefix: &[String], full: &[String]) -> bool {
 }
 
 fn oracle_shapes(run: &mut Run, rng: &mut Rng) {
-    let rounds = run.budget(2, 14);
+    let rounds = run.budget(3, 14);
     for round in 0..rounds {
         let a = loop {
             let s = gen_src(rng, 3);
@@ -320,6 +323,7 @@ fn oracle_shapes(run: &mut Run, rng: &mut Rng) {
                     mem_limit: None,
                     disk_off: false,
                     prefer_hash_join: phj,
+                    dyn_filters: true,
                 };
                 let cfg = format!("shape={} parts={parts} batch={bs} hashjoin={phj} a={:?} b={:?}", shape.name, a.parts, b.parts);
                 // fault-free run
@@ -405,6 +409,7 @@ fn oracle_resources(run: &mut Run, rng: &mut Rng) {
             mem_limit: mem,
             disk_off,
             prefer_hash_join: true,
+            dyn_filters: true,
         };
         let clean = match run_sql(&mk(None, false), sql) {
             Seen::Ok(mut r) => {
@@ -488,6 +493,25 @@ impl P {
             P::Union(l, r) => format!("(union (1 0 1) {} {})", l.sexp(srcs, bad), r.sexp(srcs, bad)),
         }
     }
+    fn has_join(&self) -> bool {
+        match self {
+            P::Src(_) => false,
+            P::Filter(_, p) | P::Udf(p) | P::Sort(p) | P::Count(p) => p.has_join(),
+            P::Join(..) => true,
+            P::Union(l, r) => l.has_join() || r.has_join(),
+        }
+    }
+    /// is some join below a filter?  (`PushDownFilter` moves such a filter into the join inputs, which can
+    /// empty one of them)
+    fn filter_over_join(&self, under_filter: bool) -> bool {
+        match self {
+            P::Src(_) => false,
+            P::Filter(_, p) => p.filter_over_join(true),
+            P::Udf(p) | P::Sort(p) | P::Count(p) => p.filter_over_join(under_filter),
+            P::Join(b, p) => under_filter || b.filter_over_join(false) || p.filter_over_join(false),
+            P::Union(l, r) => l.filter_over_join(under_filter) || r.filter_over_join(under_filter),
+        }
+    }
     /// fault-free rows of this node (reference evaluation of the tiny vocabulary) and whether every
     /// join below has two non-empty inputs.  A join may legitimately never poll one side when the other
     /// is empty (a fault that is never reached is not a failure) while the model polls both, so only
@@ -525,7 +549,7 @@ impl P {
 }
 
 fn model_cases(run: &mut Run, rng: &mut Rng) {
-    let n = run.budget(160, 3000);
+    let n = run.budget(600, 6000);
     let mut done = 0;
     let mut attempts = 0;
     while done < n && attempts < n * 6 {
@@ -534,7 +558,10 @@ fn model_cases(run: &mut Run, rng: &mut Rng) {
         let mut udf_used = false;
         let plan = gen_plan(rng, 3, &mut nsrc, &mut udf_used);
         let mut srcs: Vec<Src> = (0..nsrc).map(|_| gen_src(rng, 2)).collect();
-        let parts = *rng.pick(&[1usize, 3]);
+        // with several target partitions a partitioned hash join short-circuits every partition whose build
+        // side is empty and never polls that partition's probe side — so a source may legitimately be left
+        // unread although both join inputs are non-empty as a whole; plans with joins run single-partition
+        let parts = if plan.has_join() { 1 } else { *rng.pick(&[1usize, 3]) };
         let bs = *rng.pick(&[2usize, 8192]);
         let mk = |srcs: &[Src], bad: i64| Setup {
             tables: srcs.iter().enumerate().map(|(i, s)| (format!("s{i}"), s.clone())).collect(),
@@ -544,10 +571,18 @@ fn model_cases(run: &mut Run, rng: &mut Rng) {
             mem_limit: None,
             disk_off: false,
             prefer_hash_join: true,
+            // the model polls every input of every operator; with dynamic filters (or a filter pushed below a
+            // join, see `filter_over_join`) a join input can become empty and the other side is then never
+            // polled — a fault that is never reached is not an execution failure
+            dyn_filters: false,
         };
         let sql = plan.sql();
         if !plan.clean(&srcs).1 {
             run.count("model_skipped_join_with_empty_side");
+            continue;
+        }
+        if plan.filter_over_join(false) {
+            run.count("model_skipped_filter_above_join");
             continue;
         }
         // choose the fault: none, a source fault at a random (table, partition, k), a udf fault, or both
@@ -573,14 +608,16 @@ fn model_cases(run: &mut Run, rng: &mut Rng) {
             Seen::Panic(p) => format!("panic:{p}"),
             Seen::Hang => "hang".to_string(),
         };
-        run.count(match kind {
-            0 => "model_no_fault",
-            1 => "model_source_fault",
-            2 => "model_udf_fault",
-            3 => "model_both_faults",
-            _ => "model_no_fault",
+        let src_fault = srcs.iter().any(|s| s.fault.is_some());
+        let udf_fault = bad != -777;
+        run.count(match (src_fault, udf_fault) {
+            (false, false) => "model_no_fault",
+            (true, false) => "model_source_fault",
+            (false, true) => "model_udf_fault",
+            (true, true) => "model_both_faults",
         });
-        run.case("plan", &plan.sexp(&srcs, bad), &ans, kind != 0 && kind != 4);
+        run.count(if ans == "err" { "model_outcome_err" } else { "model_outcome_ok" });
+        run.case("plan", &plan.sexp(&srcs, bad), &ans, src_fault || udf_fault);
         done += 1;
     }
 }
